@@ -131,7 +131,11 @@ func (*sourceAddrHashLoadBalancer) hash(s string) int {
 	if v >= 0 {
 		return v
 	}
-	return -v
+	if -v >= 0 {
+		return -v
+	}
+	// v == MinInt (possible on 32-bit platforms), whose negation overflows.
+	return 0
 }
 
 // next returns the eligible event-loop by taking the remainder of a hash code as the index of event-loop list.
